@@ -55,6 +55,18 @@ def statsFor : Stype → List StatType
   | .embedding => [.EMB_DIM]
   | _ => []
 
+/-- stypes whose `parent` is `embedding` (their features and names are merged into the embedding group by
+    `_merge_feat`), in declaration order. -/
+def embGroup : List Stype := [.text_embedded, .image_embedded, .embedding]
+
+/-- `Dataset._update_col_stats`: after materialization every column of the embedding group also carries
+    `EMB_DIM` (the width of its block in the stacked tensor); other columns keep `stats_for_stype`. -/
+def statsAfterMaterialize (s : Stype) : List StatType :=
+  if s ∈ embGroup ∧ StatType.EMB_DIM ∉ statsFor s then statsFor s ++ [.EMB_DIM] else statsFor s
+
+def statsAfterTable : List (String × List String) :=
+  Stype.all.map fun s => (s.name, (statsAfterMaterialize s).map StatType.name)
+
 /-- the table in the generated file's format: `(stype name, [stat names])` for every stype. -/
 def statsForTable : List (String × List String) :=
   Stype.all.map fun s => (s.name, (statsFor s).map StatType.name)
